@@ -24,6 +24,7 @@ import (
 	"fmt"
 	"io"
 	"math/rand"
+	"reflect"
 	"strconv"
 	"strings"
 	"time"
@@ -34,7 +35,7 @@ import (
 func init() { runners["c09"] = runC09 }
 
 type c09Step struct {
-	op  string // append | reappend | overwrite | reset | none
+	op  string // append | reappend | overwrite | reset | inplace | swap | none
 	n   int    // rows to append
 	ret string // nil | eof | weof | err
 }
@@ -88,9 +89,47 @@ func c09Apply(r *rand.Rand, cs []*c02Col, st c09Step) error {
 				return fmt.Errorf("column cannot be reset")
 			}
 			rs.Reset()
+		case "inplace":
+			// the rows are rewritten where they are, without Reset and with the row count unchanged (reversed order):
+			// nothing tells the column that its contents changed
+			if !c09Reverse(c.col) {
+				if !ok {
+					return fmt.Errorf("column cannot be reset")
+				}
+				rs.Reset()
+				if err := c14Fill(c.col, rows, rand.New(rand.NewSource(r.Int63())), c.spec); err != nil {
+					return err
+				}
+			}
 		}
 	}
 	return nil
+}
+
+// c09Reverse reverses the rows of the column kinds whose rows are the elements of one exported slice
+func c09Reverse(col proto.Column) bool {
+	v := reflect.ValueOf(col)
+	if v.Kind() != reflect.Ptr {
+		return false
+	}
+	e := v.Elem()
+	var sl reflect.Value
+	switch {
+	case e.Kind() == reflect.Slice:
+		sl = e
+	case e.Kind() == reflect.Struct && e.Type().Name() == "ColEnum":
+		sl = e.FieldByName("Values")
+	default:
+		return false
+	}
+	if !sl.IsValid() || sl.Kind() != reflect.Slice || !sl.CanSet() && sl.Len() > 0 && !sl.Index(0).CanSet() {
+		return false
+	}
+	sw := reflect.Swapper(sl.Interface())
+	for i, j := 0, sl.Len()-1; i < j; i, j = i+1, j-1 {
+		sw(i, j)
+	}
+	return true
 }
 
 func c09GenScript(r *rand.Rand, rows0 int) []c09Step {
@@ -105,7 +144,7 @@ func c09GenScript(r *rand.Rand, rows0 int) []c09Step {
 	var out []c09Step
 	for i := 0; i < n; i++ {
 		st := c09Step{ret: "nil"}
-		switch r.Intn(8) {
+		switch r.Intn(11) {
 		case 0, 1:
 			st.op = "append"
 		case 2, 3:
@@ -114,6 +153,10 @@ func c09GenScript(r *rand.Rand, rows0 int) []c09Step {
 			st.op = "overwrite"
 		case 6:
 			st.op = "reset"
+		case 7, 8:
+			st.op = "inplace"
+		case 9:
+			st.op = "swap" // the callback puts other column objects into the Input (double buffering)
 		default:
 			st.op = "none"
 		}
@@ -148,8 +191,20 @@ func c09One(h *H, i int) {
 		q.ext = c02GenCols(r, 1, 2, "e", c02Specs())
 	}
 	pool := c02ZeroCopySpecs()
-	if r.Intn(4) == 0 {
+	switch r.Intn(8) {
+	case 0, 1:
 		pool = c02Specs()
+	case 2:
+		// columns with derived state that Prepare recomputes for every block (enum codes, dictionaries)
+		pool = nil
+		for _, sp := range c02Specs() {
+			if n := sp.name(); strings.HasPrefix(n, "Enum") || strings.HasPrefix(n, "LowCardinality") || strings.HasPrefix(n, "Array(LowCardinality") {
+				pool = append(pool, sp)
+			}
+		}
+		if len(pool) == 0 {
+			pool = c02Specs()
+		}
 	}
 	rows0 := []int{0, 1, 2, 3, 17, 64}[r.Intn(6)]
 	q.input = c02GenCols(r, 1+r.Intn(3), rows0, "c", pool)
@@ -205,6 +260,13 @@ func c09One(h *H, i int) {
 			return
 		}
 		want = append(want, b)
+		// the private copy itself has to say what the columns hold now (it is made by the same Prepare/Encode code as
+		// the block on the wire): read it back into fresh columns with the library's decoder and compare row by row
+		if problem == "" {
+			if d := c09ReadBack(k, q.input, b); d != "" {
+				problem = d
+			}
+		}
 	}
 	if rows0 > 0 {
 		snapshot()
@@ -221,6 +283,27 @@ func c09One(h *H, i int) {
 		}
 		st := script[calls]
 		calls++
+		if st.op == "swap" {
+			st.op = "reappend"
+			inferable := false
+			for _, c := range q.input {
+				if _, ok := c.col.(proto.Inferable); ok {
+					inferable = true // a fresh object would miss the type the server announced
+				}
+			}
+			if !inferable {
+				st.op = "none"
+				for i, c := range q.input {
+					nc, err := c14Make(c.spec, st.n, r.Int63(), false)
+					if err != nil {
+						problem = "cannot build a second column object: " + err.Error()
+						return c09ErrBoom
+					}
+					c.col = nc
+					cq.Input[i].Data = nc
+				}
+			}
+		}
 		if err := c09Apply(r, q.input, st); err != nil {
 			problem = "cannot mutate the columns: " + err.Error()
 			return c09ErrBoom
@@ -311,6 +394,41 @@ func c09One(h *H, i int) {
 		}
 	}
 	h.Emit(line, obs, oracle)
+}
+
+// c09ReadBack decodes an encoded block into fresh columns and compares every row with the live columns' accessors
+func c09ReadBack(k *c02Cfg, cs []*c02Col, enc []byte) (bad string) {
+	defer func() {
+		if p := recover(); p != nil {
+			bad = ""
+		}
+	}()
+	var target proto.Results
+	var fresh []proto.Column
+	for _, c := range cs {
+		f, err := c.spec.build()
+		if err != nil {
+			return ""
+		}
+		fresh = append(fresh, f)
+		target = append(target, proto.ResultColumn{Name: c.name, Data: f})
+	}
+	var blk proto.Block
+	if err := blk.DecodeBlock(proto.NewReader(bytes.NewReader(enc)), k.rev, target); err != nil {
+		return "the block encoded for a round does not decode again: " + err.Error()
+	}
+	for i, c := range cs {
+		live, got := c16ReadAll(c.col), c16ReadAll(fresh[i])
+		if len(live) != len(got) {
+			return fmt.Sprintf("the block encoded for a round holds %d rows of column %s, the column holds %d", len(got), c.spec.name(), len(live))
+		}
+		for j := range live {
+			if !c16Same(live[j], got[j]) {
+				return fmt.Sprintf("the block encoded for a round holds %v in row %d of column %s, the column holds %v when the round begins", got[j], j, c.spec.name(), live[j])
+			}
+		}
+	}
+	return ""
 }
 
 func c09Names(cs []*c02Col) string {
